@@ -93,6 +93,8 @@ def out_tok(v) -> str:
         return "s:" + v
     if isinstance(v, (tuple, list)):
         return ("t(" if isinstance(v, tuple) else "l(") + ",".join(out_tok(x) for x in v) + ")"
+    if isinstance(v, iso.Scale):
+        return "s:" + v.name       # a scale value (PKeyScale) is modelled as the name of the library scale
     if isinstance(v, dict):
         # a dict yielded by PDict is modelled as the tuple of its values in key order (the keys are static and are
         # checked on the real objects by the reference oracle of harness/pat_reg_misc.py)
@@ -188,6 +190,7 @@ class RecRandom(__import__("random").Random):
         self.conflict = False
         self.owner = None          # the `extra` dict of the AST node this generator belongs to
         self.registry = None       # list of (owner, RecRandom) of the current run
+        self.marks = {}            # generator state handed out by getstate() -> the recording at that moment
         super().__init__(*a)
 
     def _flush(self):
@@ -202,6 +205,19 @@ class RecRandom(__import__("random").Random):
         self._flush()
         self.tape = []
         return super().seed(*a, **kw)
+
+    # A pattern may rewind its generator by restoring a state it saved earlier instead of seeding again (the two are
+    # indistinguishable from outside): the recording then continues from what had been drawn when that state was taken.
+    def getstate(self):
+        st = super().getstate()
+        self.marks[st] = list(self.tape)
+        return st
+
+    def setstate(self, st):
+        super().setstate(st)
+        if st in self.marks:
+            self._flush()
+            self.tape = list(self.marks[st])
 
     def random(self):
         u = super().random()
@@ -224,6 +240,7 @@ class RecRandom(__import__("random").Random):
         c = RecRandom()
         c.setstate(self.getstate())
         c.tape, c.best, c.conflict = list(self.tape), list(self.best), self.conflict
+        c.marks = dict(self.marks)
         c.owner, c.registry = self.owner, self.registry
         if c.registry is not None:
             c.registry.append((c.owner, c))
@@ -316,6 +333,8 @@ def impl_collect(fn):
         return "[" + " ".join(out_tok(x) for x in vals) + "]"
     except Hang:
         raise
+    except RecursionError:
+        return "[ err:diverge]"         # as in impl_next: an endless recursion is the model's `diverge`
     except Exception as ex:
         return "[ " + err_tok(ex) + "]"
 
